@@ -471,7 +471,35 @@ def corpus_cases():
              mapping=[0, 1, 0, 0, 1, 0]),
         dict(base, kind="GN", B=None, mode="none", rows=1, ts=ts[1:], pi=[pi], rates=[rates],
              mapping=[0, 1, 2, 3, 4, 5, 0, 1, 2, 3, 4, 5]),
-    ]
+    ] + defective_cases(ts)
+
+
+def defective_cases(ts):
+    """Admissible NON-DIAGONALISABLE rate matrices (all rates > 0, uniform frequencies): Q = 11' - nI + N with N
+    nilpotent, built from rows of a Hadamard matrix; a repeated eigenvalue -n with one Jordan block.  exp(Qt) exists
+    and is what p_t must return; a spectral formula V exp(Lt) V^-1 does not apply."""
+    out = []
+    # 3 states, integer rates, double eigenvalue -4 with a single eigenvector
+    out.append(dict(kind="GN", n=3, B=None, mode="none", rows=1, ts=ts[:1], mapping=None, code=None, skew=False,
+                    wide=False, pi=[[1 / 3, 1 / 3, 1 - 2 / 3]], rates=[[3.0, 3.0, 6.0, 3.0, 6.0, 3.0]]))
+
+    def had(k):
+        H = [[1.0]]
+        for _ in range(k):
+            H = [r + r for r in H] + [r + [-x for x in r] for r in H]
+        return H
+    for k, chain in ((2, (1, 2, 3)), (3, (1, 2, 3, 4, 5))):
+        n = 2 ** k
+        H = had(k)
+        Q = [[1.0 - (n if i == j else 0.0) + sum(H[a][i] * H[b][j] for a, b in zip(chain, chain[1:])) / n
+              for j in range(n)] for i in range(n)]
+        if min(Q[i][j] for i in range(n) for j in range(n) if i != j) <= 0:
+            continue
+        upper = [n * Q[i][j] for i in range(n) for j in range(i + 1, n)]
+        lower = [n * Q[j][i] for i in range(n) for j in range(i + 1, n)]
+        out.append(dict(kind="GN", n=n, B=None, mode="none", rows=1, ts=ts[1:], mapping=None, code=None, skew=False,
+                        wide=False, pi=[[1.0 / n] * n], rates=[upper + lower]))
+    return out
 
 
 def mid(iv):
